@@ -33,22 +33,26 @@ const (
 )
 
 type cfgT struct {
-	name         string
-	props        string // which checks run this scenario
-	proto        int
-	callers      [][]string // per caller its operations: "q" query, "Q" query with a 300-byte value, "b" request whose frame fails to build
-	freeIDs      int        // >0: leave only this many stream ids free (v2 only)
-	canceller    int        // >=0: a thread cancels this caller's context at an arbitrary point
-	closer       bool       // a thread calls Conn.Close() at an arbitrary point
-	writeFault   string     // "", "some" (cut at 0, 1, n/2, n-1), "all" (every offset)
-	blockWrite   bool       // a write may block until the write deadline
-	coalesce     bool
-	fates        []string // fates the node may choose per request (first = default): reply late never error drop cuthdr cutbody
-	heartbeat    bool     // horizon past the first heartbeat tick
-	closeErr     bool     // the transport's Close returns an error
-	timeoutLimit int64    // gocql.TimeoutLimit (deprecated knob: close the connection after that many timeouts)
-	handshake    bool     // the scenario is the connection handshake itself, with a fault at an enumerated step
-	t            [2]int   // total deviation bound quick / thorough
+	name           string
+	props          string // which checks run this scenario
+	proto          int
+	callers        [][]string // per caller its operations: "q" query, "Q" query with a 300-byte value, "b" request whose frame fails to build
+	freeIDs        int        // >0: leave only this many stream ids free (v2 only)
+	canceller      int        // >=0: a thread cancels this caller's context at an arbitrary point
+	closer         bool       // a thread calls Conn.Close() at an arbitrary point
+	writeFault     string     // "", "some" (cut at 0, 1, n/2, n-1), "all" (every offset)
+	blockWrite     bool       // a write may block until the write deadline
+	blockPartial   bool       // ... after half of its bytes went out
+	noTimeout      bool       // no request timeout (ClusterConfig.Timeout = 0): only events end a request
+	cancelOnSubmit bool       // canceller >= 0: the cancelling thread is started when that caller submits its op #cancelAtOp (after the op's own delay), not at the start
+	cancelAtOp     int
+	coalesce       bool
+	fates          []string // fates the node may choose per request (first = default): reply late never error drop cuthdr cutbody
+	heartbeat      bool     // horizon past the first heartbeat tick
+	closeErr       bool     // the transport's Close returns an error
+	timeoutLimit   int64    // gocql.TimeoutLimit (deprecated knob: close the connection after that many timeouts)
+	handshake      bool     // the scenario is the connection handshake itself, with a fault at an enumerated step
+	t              [2]int   // total deviation bound quick / thorough
 }
 
 type labelKey struct{}
@@ -299,6 +303,10 @@ func (c *cfgT) handshakeBody() {
 	cluster := gocql.NewCluster("10.0.0.1")
 	cluster.ProtoVersion = c.proto
 	cluster.Timeout = reqTimeout
+	if c.noTimeout {
+		cluster.Timeout = 0
+		cluster.WriteTimeout = reqTimeout
+	}
 	cluster.ConnectTimeout = reqTimeout
 	cluster.WriteCoalesceWaitTime = 0
 	t0 := vs.Clock()
@@ -356,6 +364,10 @@ func (c *cfgT) body(prop string) {
 	cluster := gocql.NewCluster("10.0.0.1")
 	cluster.ProtoVersion = c.proto
 	cluster.Timeout = reqTimeout
+	if c.noTimeout {
+		cluster.Timeout = 0
+		cluster.WriteTimeout = reqTimeout
+	}
 	cluster.ConnectTimeout = reqTimeout
 	cluster.WriteCoalesceWaitTime = 0
 	if c.coalesce {
@@ -382,6 +394,7 @@ func (c *cfgT) body(prop string) {
 	w.hsWrites = len(w.wlog)
 	client.Faults = c.faultPlan(w.hsWrites)
 	client.BlockWrite = c.blockWrite
+	client.BlockPartial = c.blockPartial
 
 	results := make(chan result, c.nops())
 	ctxs := make([]context.Context, len(c.callers))
@@ -398,8 +411,14 @@ func (c *cfgT) body(prop string) {
 				if op == "L" {
 					vs.Sleep(lateStart - vs.Clock())
 				}
+				if op == "m" { // a query submitted just after the first coalescing window closed
+					vs.Sleep(coalesceWait + coalesceWait/2 - vs.Clock())
+				}
 				if op == "M" { // a query submitted in the middle of a stall
 					vs.Sleep(lateStart/2 - vs.Clock())
+				}
+				if i == c.canceller && c.cancelOnSubmit && k == c.cancelAtOp {
+					vs.GoNamed("canceller", func() { cancels[c.canceller]() })
 				}
 				ctx := context.WithValue(ctxs[i], labelKey{}, label)
 				r := result{label: label, op: op, start: vs.Clock()}
@@ -423,7 +442,7 @@ func (c *cfgT) body(prop string) {
 			}
 		})
 	}
-	if c.canceller >= 0 {
+	if c.canceller >= 0 && !c.cancelOnSubmit {
 		vs.GoNamed("canceller", func() { cancels[c.canceller]() })
 	}
 	closerDone := make(chan struct{}, 1)
@@ -562,7 +581,7 @@ func (w *world) checkC06(got []result, live *gocql.VerifLive) {
 		// Only meaningful when no timer was fired early: a clock deviation models the thread being descheduled
 		// for that long, which no code can bound.
 		limit := reqTimeout + reqTimeout + coalesceWait + time.Millisecond
-		if _, dDev, _ := vs.Deviations(); dDev == 0 && r.end-r.start > limit {
+		if _, dDev, _ := vs.Deviations(); dDev == 0 && !c.noTimeout && r.end-r.start > limit { // (without a request timeout only events end a request)
 			d := r.end - r.start
 			vs.Failf("c06:unbounded-wait", "request %q (fate %q) returned %v after it was submitted (limit %v): %v", r.label, w.fateOf[r.label], d, limit, r.err)
 		}
@@ -773,6 +792,7 @@ func connScenarios() []*cfgT {
 		{name: "v2-1+1-free1-coalesce-cancel-deep", props: "C01 C06", proto: 2, callers: [][]string{q(1), q(1)}, freeIDs: 1, canceller: 0, coalesce: true, fates: []string{"reply", "late"}, t: [2]int{4, 6}},
 		{name: "v4-stalled-body-late-caller", props: "C01 C06", proto: 4, callers: [][]string{q(1), {"L"}}, canceller: -1, fates: []string{"reply", "stall", "late"}, t: [2]int{2, 3}},
 		{name: "v4-stalled-body-write-error", props: "C06", proto: 4, callers: [][]string{q(1), {"M"}}, canceller: -1, writeFault: "some", fates: []string{"reply", "stall"}, t: [2]int{2, 3}},
+		{name: "v4-stalled-body-write-error-no-request-timeout", props: "C06", proto: 4, callers: [][]string{q(1), {"M"}}, canceller: -1, writeFault: "some", noTimeout: true, fates: []string{"reply", "stall"}, t: [2]int{2, 3}},
 		{name: "v2-stalled-body-late-caller-free2", props: "C01 C06", proto: 2, callers: [][]string{q(2), {"L"}}, freeIDs: 2, canceller: -1, fates: []string{"reply", "stall"}, t: [2]int{2, 3}},
 		{name: "v2-3x2-free1-late", props: "C01", proto: 2, callers: [][]string{q(2), q(2), q(2)}, freeIDs: 1, canceller: -1, fates: rln, t: [2]int{2, 4}},
 		// C06
@@ -794,6 +814,9 @@ func connScenarios() []*cfgT {
 		{name: "w-coalesce-3-sizes", props: "C07", proto: 4, callers: [][]string{{"q"}, {"Q"}, {"q", "Q"}}, canceller: 1, writeFault: "some", coalesce: true, fates: []string{"reply"}, t: [2]int{2, 3}},
 		{name: "w-direct-every-offset", props: "C07", proto: 4, callers: [][]string{{"q"}, {"q"}}, canceller: -1, writeFault: "all", fates: []string{"reply"}, t: [2]int{3, 4}},
 		{name: "w-coalesce-every-offset", props: "C07", proto: 4, callers: [][]string{{"q"}, {"q"}, {"q"}}, canceller: -1, writeFault: "all", coalesce: true, fates: []string{"reply"}, t: [2]int{2, 3}},
+		{name: "w-direct-blocked-mid-frame-3-writers", props: "C07", proto: 4, callers: [][]string{{"q"}, {"q"}, {"q"}}, canceller: 1, writeFault: "some", blockWrite: true, blockPartial: true, fates: []string{"reply"}, t: [2]int{2, 3}},
+		{name: "w-coalesce-cancel-in-second-window", props: "C07", proto: 4, callers: [][]string{{"q"}, {"m"}}, canceller: 1, cancelOnSubmit: true, coalesce: true, fates: []string{"reply"}, t: [2]int{2, 3}},
+		{name: "w-coalesce-blocked-single-frame-window", props: "C07", proto: 4, callers: [][]string{{"q"}, {"m"}}, canceller: -1, writeFault: "some", blockWrite: true, blockPartial: true, coalesce: true, fates: []string{"reply"}, t: [2]int{2, 3}},
 		{name: "w-direct-blocked-write", props: "C07", proto: 2, callers: [][]string{{"q", "q"}, {"Q"}}, canceller: 0, writeFault: "some", blockWrite: true, fates: []string{"reply", "late"}, t: [2]int{2, 3}},
 	}
 }
